@@ -333,6 +333,7 @@ int drive(int argc, char** argv, const char* prop, Hooks<Case> hk)
       meta.id = prop;
       meta.description = prop;
       target.clear();
+      long shrink_steps_this_round = 0;
       auto body = [&]() {
          const bool shrinking = !target.empty();
          if (!shrinking && now_s() - t0 > o.budget_s) {
@@ -344,6 +345,9 @@ int drive(int argc, char** argv, const char* prop, Hooks<Case> hk)
          current.put(text);
          Outcome out = hk.run(c, o);
          if (shrinking) {
+            // bounded shrinking effort: past the limit every candidate counts as passing, so rapidcheck settles on
+            // the smallest failing case found so far
+            if (++shrink_steps_this_round > o.get("shrinklimit", 4000)) return;
             ++tally.shrink_steps;
             for (auto& f : out.findings)
                if (f.signature == target) {
